@@ -516,8 +516,7 @@ class HarnessRT(object):
         for idx, it in enumerate(items):
             mode = self.item_fault(it)
             if ff is not None and ff[0] == "raise" and idx >= ff[1]:
-                cls = UserBaseErr if ff[2] == "base" else UserErr
-                e = cls(("flush", batch.bid))
+                e = lang.make_user_exc(ff[2], ("flush", batch.bid))
                 self.excs[e.tag] = e
                 d = exc_desc(e)
                 for rest in items[idx:]:
@@ -551,8 +550,8 @@ class HarnessRT(object):
                 v = ("iv", it.kind, it.key, it.inst)
                 it.set_value(v)
                 self.item_done[it.inst] = ("val", v)
-            elif mode == "error":
-                e = UserErr(("item", it.kind, it.key, it.inst))
+            elif mode in ("error", "falsyerror"):
+                e = lang.make_user_exc("falsy" if mode == "falsyerror" else "exc", ("item", it.kind, it.key, it.inst))
                 self.excs[e.tag] = e
                 it.set_error(e)
                 self.item_done[it.inst] = ("exc", exc_desc(e))
@@ -641,7 +640,7 @@ class HarnessRT(object):
 
     def make_exc(self, fr, site, cls):
         tag = ("raise", site, fr.path)
-        e = UserErr(tag) if cls == "exc" else UserBaseErr(tag)
+        e = lang.make_user_exc(cls, tag)
         self.excs[tag] = e
         return e
 
@@ -727,7 +726,7 @@ class HarnessRT(object):
             leaf = HLeaf(kind, l, pos, ConstFuture(UserErr(("value", l[1]))), inst)
         elif kind == "err":
             tag = ("err", l[1], inst)
-            e = UserErr(tag) if l[2] == "exc" else UserBaseErr(tag)
+            e = lang.make_user_exc(l[2], tag)
             self.excs[tag] = e
             leaf = HLeaf(kind, l, pos, ErrorFuture(e), inst)
         elif kind == "lazy":
